@@ -1,0 +1,98 @@
+"""
+pybufrkit._verif
+~~~~~~~~~~~~~~~~
+
+Tracing hooks for external verification tooling. Everything in this module is
+inert unless the environment variable YWANGD_PYBUFRKIT_VERIF is set to 1 when
+the package is imported. With the variable set, the primitive processing
+methods of Decoder/Encoder emit one event per call (after the call returns or
+raises) and the message scanner emits one event per loop iteration.
+
+Events are appended to the in-memory list EVENTS, or written as one JSON object
+per line to the file named by YWANGD_PYBUFRKIT_VERIF_TRACE when that is set.
+"""
+import functools
+import json
+import os
+
+GUARD = 'YWANGD_PYBUFRKIT_VERIF'
+
+EVENTS = []
+_depth = [0]
+
+PRIMITIVES = ('process_numeric', 'process_string', 'process_codeflag',
+              'process_new_refval', 'process_constant')
+
+
+def enabled():
+    return os.environ.get(GUARD) == '1'
+
+
+def emit(event):
+    path = os.environ.get(GUARD + '_TRACE')
+    if path:
+        with open(path, 'a') as outs:
+            outs.write(json.dumps(event, default=repr) + '\n')
+    else:
+        EVENTS.append(event)
+
+
+def _wrap_primitive(name, func):
+    @functools.wraps(func)
+    def wrapper(self, state, bit_operator, descriptor, *args):
+        nested = _depth[0] > 0
+        _depth[0] += 1
+        p0 = bit_operator.get_pos() if bit_operator is not None else -1
+        err = ''
+        try:
+            return func(self, state, bit_operator, descriptor, *args)
+        except BaseException as e:
+            err = type(e).__name__
+            raise
+        finally:
+            _depth[0] -= 1
+            if not nested and bit_operator is not None:
+                emit({
+                    'a': name,
+                    'coder': type(self).__name__,
+                    'lab': str(descriptor),
+                    'args': list(args),
+                    'p0': p0,
+                    'p1': bit_operator.get_pos(),
+                    'sub': state.idx_subset,
+                    'idx': len(state.decoded_descriptors) - 1,
+                    'err': err,
+                })
+
+    return wrapper
+
+
+def _wrap_define_bitmap(func):
+    @functools.wraps(func)
+    def wrapper(self, state, reuse):
+        err = ''
+        try:
+            return func(self, state, reuse)
+        except BaseException as e:
+            err = type(e).__name__
+            raise
+        finally:
+            emit({
+                'a': 'define_bitmap',
+                'coder': type(self).__name__,
+                'reuse': bool(reuse),
+                'n': state.n_031031,
+                'sub': state.idx_subset,
+                'idx': len(state.decoded_descriptors) - 1,
+                'err': err,
+            })
+
+    return wrapper
+
+
+def instrument(cls):
+    """Wrap the primitive processing methods of a Coder subclass in place."""
+    for name in PRIMITIVES:
+        setattr(cls, name, _wrap_primitive(name, getattr(cls, name)))
+    setattr(cls, 'define_bitmap', _wrap_define_bitmap(getattr(cls, 'define_bitmap')))
+    return cls
